@@ -17,3 +17,14 @@ Lemma image_range_agrees : forall f m,
   (if f_64 f then L_pe64_headers_Headers_image_range else L_pe32_headers_Headers_image_range) (h_soi f m) (h_soh f m) = op_image_range f m /\
   (if f_64 f then L_pe64_headers_Headers_image_range_ok else L_pe32_headers_Headers_image_range_ok) (h_soi f m) (h_soh f m) = true.
 Proof. intros f m. destruct (f_64 f); split; reflexivity. Qed.
+
+(* what each binder of the generated definitions stands for in the source (third audit, F2): a function that starts
+   reading another field or index changes coq/gen/Leaf.v only in these lists *)
+From Coq Require Import List String.
+Import ListNotations.
+Lemma leaf_reads_wrap :
+  L_pe32_headers_Headers_code_range_args = ["optional_header.SizeOfCode : u32"%string; "optional_header.BaseOfCode : u32"%string] /\
+  L_pe32_headers_Headers_image_range_args = ["optional_header.SizeOfImage : u32"%string; "optional_header.SizeOfHeaders : u32"%string] /\
+  L_pe64_headers_Headers_code_range_args = ["optional_header.SizeOfCode : u32"%string; "optional_header.BaseOfCode : u32"%string] /\
+  L_pe64_headers_Headers_image_range_args = ["optional_header.SizeOfImage : u32"%string; "optional_header.SizeOfHeaders : u32"%string].
+Proof. repeat split; reflexivity. Qed.
